@@ -118,7 +118,14 @@ def rebase_conflict_multi_commit(trace, viol):
         return False
     reb = _index_of(trace, lambda o: _is_git(o, "rebase") and "--continue" not in o["argv"] and "--abort" not in o["argv"])
     if reb is None:
-        return False
+        # the same replay of a RANGE through cherry-pick (git cherry-pick A..B): same derivation of every note from the
+        # state at the end of the range
+        pick = _index_of(trace, lambda o: _is_git(o, "cherry-pick") and any(".." in a for a in o["argv"]))
+        if pick is None:
+            return False
+        res = _index_of(trace, lambda o: o.get("op") == "resolve", pick)
+        st = viol.get("step")
+        return res is not None and isinstance(st, int) and st > res and "cherry-pick" in _step_argv(trace, viol)
     res = _index_of(trace, lambda o: o.get("op") == "resolve", reb)
     st = viol.get("step")
     # the rewritten range has two or more commits (a single-commit rebase with a conflict is handled correctly)
